@@ -14,7 +14,7 @@ pub fn def() -> PropertyDef {
     PropertyDef {
         id: "C02",
         level: "exploration",
-        scenarios: vec![Box::new(HmcSteps)],
+        scenarios: vec![Box::new(HmcSteps), Box::new(TargetPanics)],
         assumptions: vec![
             "the momenta and acceptance draws a step consumed are taken from the draw trace (hook H5), so the oracle does not depend on which generator produced them",
             "reference = velocity Verlet in f64 on the analytic gradient; tolerance is condition-aware: the reference is run a second time on inputs perturbed by a few backend ulps and the observed amplification sets the tolerance; rows whose own tolerance exceeds 5% of the scale are counted, not judged",
@@ -415,5 +415,74 @@ impl Scenario for HmcSteps {
     }
     fn components(&self) -> Value {
         json!({"real": ["HMC::step", "HMC::leapfrog", "burn autodiff (NdArray f32/f64)", "library targets"], "stub": ["dual targets written by the harness (burn + analytic f64)"]})
+    }
+}
+
+
+// ---- fault: the user's target code panics at one of the L + 2 evaluations of a step ---------------
+struct TargetPanics;
+impl Scenario for TargetPanics {
+    fn name(&self) -> &'static str {
+        "target_panics"
+    }
+    fn runs(&self, tier: Tier) -> u64 {
+        tier.pick(600, 40_000)
+    }
+    fn generate(&self, g: &mut Gen, _t: Tier, _i: u64) -> Value {
+        let l = g.usize(0, 8);
+        json!({"gseed": g.u64(), "hseed": g.u64(), "d": g.usize(1, 4), "n_chains": g.usize(1, 6), "L": l, "eps": fbits(g.log_uniform(0.02, 0.6)), "steps_before": g.usize(0, 3), "fail_eval": g.usize(1, l + 3), "steps_after": g.usize(1, 3)})
+    }
+    fn execute(&self, p: &Value, _ws: bool) -> Outcome {
+        let mut o = Outcome::default();
+        let mut g = Gen::new(pu(p, "gseed"));
+        let (d, nc, l) = (pus(p, "d"), pus(p, "n_chains"), pus(p, "L"));
+        let target = GTarget::gauss(&mut g, d, 4.0);
+        let init: Vec<Vec<f64>> = (0..nc).map(|_| (0..d).map(|_| g.normal()).collect()).collect();
+        let mut h = HMC::<f64, BF64, GTarget>::new(target.clone(), init, pf(p, "eps"), l).set_seed(pu(p, "hseed"));
+        o.hash = str_hash(&p.to_string());
+        let _ = mcmc_sim::sim::take_last_panic();
+        for _ in 0..pus(p, "steps_before") {
+            h.step();
+        }
+        let bits = |h: &HMC<f64, BF64, GTarget>| -> Vec<u64> { h.positions.to_data().convert::<f64>().to_vec::<f64>().unwrap().iter().map(|v| v.to_bits()).collect() };
+        let before = bits(&h);
+        // arm through the public `target` field: evaluation k of the next step fails
+        h.target.crash_at = target.evals.load(Ordering::Relaxed) + pus(p, "fail_eval") as u64;
+        let r = std::panic::catch_unwind(std::panic::AssertUnwindSafe(|| h.step()));
+        h.target.crash_at = u64::MAX;
+        let fired = r.is_err();
+        o.count("fault_target_code_panicked", fired as u64);
+        o.count("probe_fault_at_the_last_evaluation_of_the_step", (fired && pus(p, "fail_eval") == l + 2) as u64);
+        o.nontrivial = fired;
+        if fired {
+            let m = mcmc_sim::sim::take_last_panic().unwrap_or_default();
+            if !m.contains("VERIF-INJECTED") {
+                let loc = m.rsplit(" @ ").next().unwrap_or("").to_string();
+                o.violate("panic", &format!("HMC::step:panic@{loc}"), m);
+                return o;
+            }
+            // the Metropolis test of that step never took place: every row is where it was
+            if bits(&h) != before {
+                o.violate("state_changed_without_decision", "HMC::step:positions-changed-by-a-step-that-failed-before-its-decision", format!("target evaluation {} of {} of the step failed (caught by the caller) and the positions changed (L = {l}, {nc} chains)", pus(p, "fail_eval"), l + 2));
+                return o;
+            }
+        }
+        for _ in 0..pus(p, "steps_after") {
+            let r = std::panic::catch_unwind(std::panic::AssertUnwindSafe(|| h.step()));
+            if r.is_err() {
+                let m = mcmc_sim::sim::take_last_panic().unwrap_or_default();
+                let loc = m.rsplit(" @ ").next().unwrap_or("").to_string();
+                o.violate("panic", &format!("HMC::step(after-fault):panic@{loc}"), m);
+                return o;
+            }
+        }
+        o.work = 1;
+        o
+    }
+    fn rule(&self) -> &'static str {
+        "one run = an HMC batch (Gaussian, d 1..4, 1..6 chains, L 0..8) in whose step after 0..3 ordinary steps the target's code panics at evaluation k (k = 1..L+3, so also the last one of the step and one beyond it), the caller catching it; the step's Metropolis test never took place, so every row must be where it was, bit for bit, and later steps must work; non-trivial = the fault fired"
+    }
+    fn components(&self) -> Value {
+        json!({"real": ["HMC::step"], "stub": ["dual Gaussian target with an injected one-shot panic"]})
     }
 }
